@@ -348,14 +348,15 @@ Proof.
   - unfold right_of_dot. rewrite Hdot. reflexivity.
 Qed.
 
-(* ... on the class header: the CLASS item of this document, named as the header spells it, selection
-   range = the class name token, range = the header *)
+(* ... on the class header: the CLASS item, named as the header spells it, selection range = the class
+   name token, range = the header; its uri: the document whose stem is the header's name (this document,
+   under named_by_stem and distinct stems: class_uri_own), else the requested one *)
 Corollary hier_prepare_char_class ws stem t p i h :
   regular t -> flat_methods t = true -> is_dot t = false ->
   find is_header (nchildren t) = Some h -> is_kind KAstClass h = true ->
   at_top_child t p i h ->
   find_in (root_table_of false t) (nident h) = Some (decl_sym h) ->
-  prepare ws (stem, t) p = Ans (ROk [item_of_node IClass stem h]).
+  prepare ws (stem, t) p = Ans (ROk [item_of_node IClass (class_uri ws stem (nident h)) h]).
 Proof.
   intros Hreg Hfm Hdot Hh Hk Hat Hfind.
   assert (Hm : is_method_node h = false).
@@ -427,3 +428,111 @@ Proof.
     assert (Ha : named (a_name a) a = true) by (unfold named, ci_eqb; apply str_eqb_refl).
     rewrite (HL a H) in Ha. discriminate.
 Qed.
+
+(* ====================================================================================== *)
+(* 5. the uri of a prepared item names the document that declares it                      *)
+(* ====================================================================================== *)
+
+Lemma item_for_uri ws stem cls a it : item_for ws stem cls a = ROk [it] ->
+  i_uri it = stem \/ exists d', doc_of ws (upper cls) = Some d' /\ i_uri it = fst d'.
+Proof.
+  unfold item_for, class_uri. destruct (a_kind a); try discriminate;
+    destruct (doc_of ws (upper cls)) as [d'|]; try discriminate; intro H; inversion H; subst it; cbn [i_uri]; eauto.
+Qed.
+
+(* ALL trees: the item is made from a symbol `a` of a table T of the requested document's annotation;
+   its uri is the document get_uri_for_class finds for T's for_class_or_module, else the requested one *)
+Theorem hier_item_uri ws d p it : prepare ws d p = Ans (ROk [it]) ->
+  exists T a, In T (tables_of false (snd d)) /\ In a (t_syms T) /\ item_for ws (fst d) (cls_str T) a = ROk [it] /\
+    i_name it = a_name a /\
+    (i_uri it = fst d \/ exists d', doc_of ws (upper (cls_str T)) = Some d' /\ i_uri it = fst d').
+Proof.
+  unfold prepare. destruct (negb (flat_methods (snd d))); [discriminate|].
+  destruct (chain_for (snd d) (descend p (snd d))) as [ch|] eqn:Ec; [|discriminate].
+  destruct (path_up p (snd d)) as [|[idx enc] up]; [discriminate|].
+  destruct (right_of_dot idx up); [discriminate|].
+  pose proof (lookup_nearest ch (nident enc)) as HL.
+  destruct (lookup ch (nident enc)) as [[T a]|]; [|destruct (foreign (snd d)); discriminate].
+  intro H. assert (Hi : item_for ws (fst d) (cls_str T) a = ROk [it]) by congruence. clear H.
+  destruct HL as (pre & post & Hch & _ & Hf).
+  exists T, a. split.
+  { apply (chain_for_tables _ _ _ Ec). rewrite Hch. apply in_or_app. right. left. reflexivity. }
+  split.
+  { pose proof (find_in_latest T (nident enc)) as HF. rewrite Hf in HF. destruct HF as (_ & A1 & A2 & -> & _).
+    apply in_or_app. right. left. reflexivity. }
+  split; [exact Hi|]. split; [apply (item_for_fields _ _ _ _ _ Hi)|apply (item_for_uri _ _ _ _ _ Hi)].
+Qed.
+
+(* stems pairwise distinct ignoring case: class_uri_map holds one document per key *)
+Definition distinct_stems (ws : wsT) : Prop := NoDup (map (fun x : doc => upper (fst x)) ws).
+
+Lemma doc_of_unique ws d : distinct_stems ws -> In d ws -> doc_of ws (upper (fst d)) = Some d.
+Proof.
+  unfold distinct_stems, doc_of. induction ws as [|x ws IH]; intros Hnd Hd; [destruct Hd|].
+  cbn [map] in Hnd. inversion Hnd as [|? ? Hx Hnd']; subst. cbn [find]. destruct Hd as [->|Hd].
+  - rewrite str_eqb_refl. reflexivity.
+  - destruct (str_eqb (upper (fst x)) (upper (fst d))) eqn:E; [|apply IH; assumption].
+    apply str_eqb_eq in E. exfalso. apply Hx. rewrite E. apply in_map_iff. exists d. auto.
+Qed.
+
+(* every table of a regular document carries the header's name *)
+Lemma regular_cls t : regular t -> exists h, find is_header (nchildren t) = Some h /\
+  forall T, In T (tables_of false t) -> cls_str T = nident h.
+Proof.
+  intro Hreg. destruct (annotate_regular t Hreg) as (h & Hf & Ha). cbv zeta in Ha. exists h. split; [exact Hf|].
+  intros T HT. unfold tables_of, root_table_of, method_tables_of in HT. rewrite Ha in HT. cbn [st_root st_done] in HT.
+  destruct HT as [<-|HT]; [reflexivity|]. apply in_map_iff in HT. destruct HT as (m & <- & _). reflexivity.
+Qed.
+
+(* in a regular document the symbols of the method tables are variables: a symbol an item is made from
+   (Class / Func / Proc / Field) is a symbol of the ROOT table *)
+Lemma regular_item_root t T a : regular t -> In T (tables_of false t) -> In a (t_syms T) ->
+  a_kind a <> KVariable -> In a (t_syms (root_table_of false t)).
+Proof.
+  intros Hreg HT Ha Hk. destruct (annotate_regular t Hreg) as (h & Hf & HA). cbv zeta in HA.
+  unfold tables_of, root_table_of, method_tables_of in *. rewrite HA in *. cbn [st_root st_done] in *.
+  destruct HT as [<-|HT]; [exact Ha|]. exfalso. apply in_map_iff in HT. destruct HT as (m & <- & _).
+  unfold mtab in Ha. cbn [t_syms] in Ha. unfold var_syms in Ha. apply in_map_iff in Ha. destruct Ha as (q & <- & Hq).
+  apply filter_In in Hq. destruct Hq as [_ Hv]. apply Hk. unfold vsym, decl_sym, sym_of. cbn [a_kind].
+  unfold var_like in Hv. unfold member_kind. destruct (dkind_at q) as [k|] eqn:E; [|discriminate].
+  rewrite (dkind_at_some _ _ E). destruct k; try discriminate; reflexivity.
+Qed.
+
+Lemma item_for_not_var ws stem cls a it : item_for ws stem cls a = ROk [it] -> a_kind a <> KVariable.
+Proof. unfold item_for. intros H E. rewrite E in H. discriminate. Qed.
+
+(* C08 for hierarchy items, at tree level: in a workspace whose documents are named after their classes
+   (distinct stems), an item prepared in a regular document d names d ITSELF, is made from a symbol of d's
+   root table, and its ranges are the declared-name range and the range of a declaration node of d's OWN
+   tree (inside one another when d's ranges are well formed): the ranges lie in the document the item names *)
+Theorem C13_item_uri_tree ws d p it :
+  In d ws -> distinct_stems ws -> named_by_stem ws -> regular (snd d) ->
+  prepare ws d p = Ans (ROk [it]) ->
+  i_uri it = fst d /\ doc_of ws (upper (i_uri it)) = Some d /\
+  (exists a, In a (t_syms (root_of d)) /\ a_name a = i_name it /\ a_sel a = i_sel it /\ a_range a = i_range it) /\
+  exists n, In n (visit_seq false (snd d)) /\ i_sel it = name_range (snd n) /\ i_range it = nrange (snd n) /\
+    forall L, Forall_nodes (NodeWf L) (snd d) -> inside (i_sel it) (i_range it).
+Proof.
+  intros Hd Hnd Hn Hreg Hp.
+  destruct (hier_item_uri ws d p it Hp) as (T & a & HT & Ha & Hi & Hname & Huri).
+  destruct (regular_cls (snd d) Hreg) as (h & Hh & Hcls). rewrite (Hcls T HT) in Huri.
+  assert (He : entity_info (snd d) = Some (nident h, option_map tval (attr_tok K_parent h)))
+    by (unfold entity_info; rewrite find_header_eq, Hh; reflexivity).
+  pose proof (Hn d _ _ Hd He) as Hs.
+  assert (Hu : i_uri it = fst d).
+  { destruct Huri as [E|(d' & Hd' & E)]; [exact E|]. rewrite <- Hs, (doc_of_unique ws d Hnd Hd) in Hd'. inversion Hd'; subst d'. exact E. }
+  split; [exact Hu|]. split; [rewrite Hu; apply doc_of_unique; assumption|]. split.
+  - exists a. destruct (item_for_fields _ _ _ _ _ Hi) as (E1 & E2 & E3). split; [|auto].
+    apply (regular_item_root (snd d) T a Hreg HT Ha). apply (item_for_not_var _ _ _ _ _ Hi).
+  - destruct (hier_item_ranges ws d p it Hp) as (n & Hin & E1 & E2 & _ & Hw). exists n. auto.
+Qed.
+
+(* the item the Class arm of prepare_type_hierarchy makes from a class symbol `a` found in the table T --
+   possibly the table of ANOTHER document, reached through the parent chain -- for a request in the document
+   with stem `req`.  old = true: the code before 6242e0e (always the requested document) *)
+Definition class_item_with (old : bool) (ws : wsT) (req : str) (T : table) (a : asym) : item :=
+  mkItem (a_name a) IClass (if old then req else class_uri ws req (cls_str T)) (a_sel a) (a_range a).
+
+(* no node of the tree t reaches line l *)
+Definition below_line (t : node) (l : N) : bool :=
+  forallb (fun n : vnode => N.ltb (pline (rend (nrange (snd n)))) l) (visit_seq false t).
